@@ -26,51 +26,80 @@ def update_castling_rule(ctx, facts, rid):
         return
     fb = FxBuilder(facts)
     tree = fb.tree(fn)
-    change = ("param", 2, fn.body.names.get(2, "_2"))
-    found = {}
-    guard_all = None
-    final = None
-    for n, conds, inl in walk_tree(tree):
-        if n[0] != "switch":
-            continue
-        d = n[1]
-        if d[0] == "bin" and d[1] in ("Ne", "Eq") and d[3] == ("const", 0, "u64") or (d[0] == "bin" and d[2] == ("const", 0, "u64")):
-            other = d[3] if d[2] == ("const", 0, "u64") else d[2]
-            if other[0] == "bin" and other[1] == "BitAnd" and change in (other[2], other[3]):
-                k = other[3] if other[2] == change else other[2]
-                if k[0] == "const":
-                    nonzero_branch = "else" if d[1] == "Ne" else (0,)
-                    sub = n[2].get(nonzero_branch, [])
-                    unsets = [(m[2][1], m[2][2]) for m, _c, _i in walk_tree(sub)
-                              if m[0] == "inlined" and m[1] == "owlchess_base::types::CastlingRights::unset"
-                              and len(_c) == 0]
-                    if unsets:
-                        for (c, s) in unsets:
-                            if c[0] == "const" and s[0] == "const":
-                                found[(c[1], s[1])] = (k[1], n[3])
-                    elif guard_all is None and not conds:
-                        guard_all = (k[1], d[1], n[3])
-        u = unstamp(d)
-        if u[0] == "bin" and u[1] == "Ne" and any(show(x) == "*b.r.castling" for x in (u[2], u[3])):
-            final = n
+    # what the function computes, tabulated: for both sides to move, all 16 rights values and every set of changed home squares
+    # (with and without an unrelated square) the rights afterwards are the old ones minus exactly those whose king or rook
+    # home square changed. The model is evaluated, not matched: early exits, loops, combined masks all come out the same.
+    from .machine import Machine, run_function, Stuck
+    from .teval import Unsupported, Panic
+    has = facts.fns.get("owlchess_base::types::CastlingRights::has")
+    if has is None:
+        r.anchor_missing("owlchess_base::types::CastlingRights::has")
+        return
+    try:
+        meaning = {cr: frozenset((c, s_) for c in (WHITE, BLACK) for s_ in (QUEEN, KING)
+                                 if run_function(facts, has, {1: cr, 2: c, 3: s_}, deref_self=True)[0]) for cr in range(16)}
+    except (Stuck, Unsupported, Panic) as ex:
+        r.fail("table", "CastlingRights::has not evaluable: %s" % str(ex)[:100], site=ctx.site(has))
+        return
+    by_meaning = {v: k for k, v in meaning.items()}
+    if len(by_meaning) != 16:
+        r.fail("table", "CastlingRights::has does not distinguish the 16 values", site=ctx.site(has))
+        return
+    atree = FxBuilder(facts, ai_mode=True, max_depth=12, max_blocks=400).tree(fn)
+    homes = []
     for c in (WHITE, BLACK):
-        for s in (QUEEN, KING):
-            key = "pair(%s,%s)" % ("WB"[c], "QK"[s])
-            if (c, s) not in found:
-                r.fail(key, "update_castling never clears the %s right of %s" % (["queenside", "kingside"][s], ["White", "Black"][c]),
-                       site=ctx.site(fn))
-                continue
-            mask, site = found[(c, s)]
-            r.check(mask == ref_srcs(c, s), key,
-                    "update_castling clears %s/%s when `change` meets %#x, but the king and rook home squares are %#x"
-                    % ("WB"[c], "QK"[s], mask, ref_srcs(c, s)), site=ctx.site(site.fn, site.bi), what=key + " mask %#x" % mask)
-    allm = 0
-    for c in (WHITE, BLACK):
-        for s in (QUEEN, KING):
-            allm |= ref_srcs(c, s)
-    if guard_all is not None:
-        r.check(guard_all[0] == allm, "early-exit", "the early exit of update_castling tests %#x, not all six home squares %#x"
-                % (guard_all[0], allm), what="early exit mask = all home squares")
+        for s_ in (QUEEN, KING):
+            for q in range(64):
+                if (ref_srcs(c, s_) >> q) & 1 and q not in homes:
+                    homes.append(q)
+    other = next(q for q in range(27, 64) if q not in homes)
+    bad = None
+    n_pts = 0
+    for side in (0, 1):
+        for r0 in range(16):
+            for sub in range(1 << len(homes)):
+                for extra in (0, 1 << other):
+                    change = extra | sum(1 << homes[i] for i in range(len(homes)) if (sub >> i) & 1)
+
+                    def mem(place, m, r0=r0, side=side):
+                        t = show(unstamp(place))
+                        if t.endswith("castling") or t.endswith("castling.0"):
+                            return r0
+                        if t.endswith(".side"):
+                            return side
+                        return ("sym", "opaque")
+                    try:
+                        m = Machine(facts, atree, mem=mem)
+                        m.syms[2] = change
+                        res = m.start()
+                        steps = 0
+                        while res[0] == "at" and steps < 100:
+                            res = m.resume(res[1])
+                            steps += 1
+                        if res[0] != "ret":
+                            bad = "update_castling ends with %s for rights %d, change %#x" % (res[0], r0, change)
+                            break
+                        hist = [v for k, v in m.memv.items() if k.endswith("castling") or k.endswith("castling.0")]
+                        r1 = hist[0][-1] if hist else r0
+                    except (Stuck, Unsupported, Panic) as ex:
+                        bad = "model not evaluable: %s" % str(ex)[:120]
+                        break
+                    want = frozenset(p for p in meaning[r0] if not (change & ref_srcs(*p)))
+                    if not isinstance(r1, int) or meaning.get(r1) != want:
+                        names = lambda st: "".join(ch for (c, s_, ch) in ((0, 1, "K"), (0, 0, "Q"), (1, 1, "k"), (1, 0, "q")) if (c, s_) in st) or "-"
+                        bad = "with %s to move, rights %s and changed squares %#x update_castling leaves %s; the rules leave %s" % (
+                            "White" if side == 0 else "Black", names(meaning[r0]), change,
+                            names(meaning[r1]) if isinstance(r1, int) and r1 in meaning else repr(r1), names(want))
+                        break
+                    n_pts += 1
+                if bad:
+                    break
+            if bad:
+                break
+        if bad:
+            break
+    r.check(bad is None, "table", bad or "", site=ctx.site(fn),
+            what="update_castling tabulated on %d (side, rights, changed squares) points: removes exactly the rights whose home squares changed" % n_pts)
     # hash bracket - net effect along every path, whatever the shape of the code:
     #   rights unchanged: hash unchanged;  rights r0 -> r: hash' = hash ^ CASTLING[r0] ^ CASTLING[r]
     from .fx import tree_paths, path_value
